@@ -21,7 +21,7 @@ from fsmc.ref import tangent as RT
 PID = "C02"
 RULE = ("configurations of (base, Moebius map, rotation, translation, scale, k, fit, ignore_four) within the deviation bound of a centre; "
         "all connected sub-tissues; hand-built lattices. non-trivial = at least one junction row; classes = (rows, cols, k, fit, map)")
-BOUND = {"quick": "deviation bound d=2 around the centre of 2 Voronoi bases (+1 seeded); all sub-tissues of a 7-cell base at k in {0,1,2,5}; lattices at 12 rotations",
+BOUND = {"quick": "deviation bound d=2 around the centre of 2 Voronoi bases (+1 seeded); all sub-tissues of a 7-cell base at k in {0,1,2,5}, of the 5-fold fan (many-fold junctions on the border, uniform and mixed point counts) and of square3x3; lattices (square, brick, hex, 4/5/6-fold fans, lens) at 12 rotations; point counts 0..16 and 3 mixed patterns",
          "thorough": "d=3 on one base, d=2 on three; all sub-tissues of 11-cell base; lattices at 48 rotations"}
 ASSUMPTIONS = ["a two-point interface is the straight segment through its two points",
                "fit budget (L2): taubinSVD 1e-9 on any curved arc; dlite 1e-7 on arcs turning >= 0.1 rad (leastsq termination tolerance), 5e-3 on flatter arcs; collinear points exact; translations <= 10 tissue sizes",
